@@ -16,6 +16,7 @@ import (
 	"net"
 	"net/http"
 	"net/netip"
+	"os"
 	"strconv"
 	"sync"
 	"syscall"
@@ -58,6 +59,11 @@ type Scenario struct {
 	//   client : the same, the client aborts
 	//   wclosed: the target closes its socket completely after its last byte; the client then keeps writing (two bursts)
 	Reset string `json:"reset,omitempty"`
+	// Plain: server http / httpauth only: one plain-HTTP POST (non-CONNECT) with a FirstLen-byte body; the target answers with
+	// a sum(TargetLens)-byte body
+	Plain bool `json:"plain,omitempty"`
+
+	plainCS, plainTS []byte // filled by the run: what the request forwarder handed to the relay / what the target wrote
 }
 
 // stream returns n bytes of the position-dependent pseudo-random stream `seed` starting at offset off.
@@ -135,6 +141,8 @@ type env struct {
 
 const (
 	ssPSK        = "QzEzLXBzay1DMTMtcHNrIQ==" // 16 bytes
+	daveUPSK     = "ZGF2ZS1kYXZlLWRhdmUtMQ==" // "dave-dave-dave-1"
+	erinUPSK     = "ZXJpbi1lcmluLWVyaW4tMg=="
 	unreachAddr  = "255.255.255.255:80" // TCP connect to a broadcast address: the kernel itself answers ENETUNREACH (tcp_v4_connect), no routing involved
 	refusedAddr  = "127.0.0.1:1"
 	rejectDomain = "rejected.c13.test"
@@ -181,6 +189,12 @@ func (sc *Scenario) targetAddrFor(targetListen string) string {
 }
 
 func startRelay(sc *Scenario, targetListen string, ev *env) (*relay, error) {
+	storePath := ""
+	defer func() {
+		if storePath != "" {
+			os.Remove(storePath) // loaded at Manager construction time
+		}
+	}()
 	target := sc.targetAddrFor(targetListen)
 	ln := map[string]any{"network": "tcp", "address": "127.0.0.1:0", "initialPayloadWaitTimeout": fmt.Sprintf("%dms", sc.WaitMs)}
 	if sc.Buf != 0 {
@@ -209,6 +223,18 @@ func startRelay(sc *Scenario, targetListen string, ev *env) (*relay, error) {
 	case "ss2022":
 		srv["protocol"] = "2022-blake3-aes-128-gcm"
 		srv["psk"] = ssPSK
+	case "ss2022mu":
+		// multi-user: the server's psk is the identity key, users live in the uPSK store file
+		f, err := os.CreateTemp("", "c13-upsk-*.json")
+		if err != nil {
+			return nil, err
+		}
+		storePath = f.Name()
+		fmt.Fprintf(f, `{"dave": %q, "erin": %q}`, daveUPSK, erinUPSK)
+		f.Close()
+		srv["protocol"] = "2022-blake3-aes-128-gcm"
+		srv["psk"] = ssPSK
+		srv["uPSKStorePath"] = storePath
 	default:
 		return nil, fmt.Errorf("unknown server protocol %q", sc.Server)
 	}
@@ -699,8 +725,13 @@ type clientConn struct {
 // dialRelay performs the server protocol's handshake by hand (RFC 1928 / RFC 1929 / RFC 9110 CONNECT / socks address) or,
 // for Shadowsocks 2022, with the repository's own client.
 func dialRelay(sc *Scenario, relayAddr, target string, coalesce []byte, deadline time.Time) (clientConn, error) {
-	if sc.Server == "ss2022" {
-		ccc, err := ss2022.NewClientCipherConfig(pskBytes(), nil, false)
+	if isSS(sc.Server) {
+		psk, ipsks := pskBytes(), [][]byte(nil)
+		if sc.Server == "ss2022mu" {
+			upsk, _ := base64.StdEncoding.DecodeString(daveUPSK)
+			psk, ipsks = upsk, [][]byte{pskBytes()}
+		}
+		ccc, err := ss2022.NewClientCipherConfig(psk, ipsks, false)
 		if err != nil {
 			return clientConn{}, err
 		}
